@@ -281,8 +281,12 @@ def all_metrics_case():
                 loop.create_task(rs.send(r))
                 loop.settle()
         sent = {}
-        for k in (1, 2):
+        for k in (1, 2, 3):
             m = msgs(k)
+            if k == 3:
+                # a message in which some metrics are "not measured" (NaN): the sample still carries that value
+                m[2] = type(m[2])(**{**m[2].__dict__, "frequency": math.nan, "reactive_power": math.nan})
+                m[9] = type(m[9])(**{**m[9].__dict__, "temperature": math.nan, "soc": math.nan})
             for cid, msg in m.items():
                 api.push(msg)
                 sent[(cid, k)] = msg
@@ -293,8 +297,12 @@ def all_metrics_case():
             while len(rx):
                 s_ = rx.consume()
                 got.append((int((s_.timestamp - T).total_seconds()), None if s_.value is None else s_.value.base_value))
-            exp = [(k, expected(sent[(cid, k)], metric)) for k in (1, 2)]
-            if len(got) != 2 or any(g[0] != e[0] or g[1] is None or not math.isclose(g[1], e[1]) for g, e in zip(got, exp)):
+            exp = [(k, expected(sent[(cid, k)], metric)) for k in (1, 2, 3)]
+
+            def same(g, e):
+                return g is not None and ((math.isnan(g) and math.isnan(e)) or math.isclose(g, e))
+
+            if len(got) != 3 or any(g[0] != e[0] or not same(g[1], e[1]) for g, e in zip(got, exp)):
                 viol.append(("sample_carries_metric_value_and_timestamp", {"component": cid, "metric": metric.name, "got": got, "expected": exp}))
         loop.create_task(actor.stop())
         loop.settle()
